@@ -1346,3 +1346,15 @@ package regexp2
 //@     invariant best >= 0 ==> exists q int {mark(q)} {prefixes[q]} :: 0 <= q && q <= rangeindex && PrefOccS(input, startAt + best, prefixes[q], ignoreCase)
 //@     invariant forall q int, k int {mark(q), mark(k - startAt)} :: 0 <= q && q <= rangeindex && startAt <= k && (best < 0 || k < startAt + best) ==> !PrefOccS(input, k, prefixes[q], ignoreCase)
 //@     decreases len(prefixes) - rangeindex
+
+// ---- raw-string multi-prefix filter (first-byte bucket path) ----
+//@ func (f *asciiStringSetPrefixFilter) index(input string, startAt int) (candidateByteIndex int, ok bool)
+//@   props C02 C03 C10
+//@   requires f != nil && AsciiStr(f.firstChars)
+//@   ensures[hit] ok ==> startAt <= candidateByteIndex && candidateByteIndex < len(input) && exists q int :: 0 <= q && q < len(f.prefixesByFirst[input[candidateByteIndex]]) && SubAt(input, candidateByteIndex, f.prefixesByFirst[input[candidateByteIndex]][q])
+//@   loop 0:
+//@     invariant 0 <= startAt && startAt <= searchAt && startAt <= len(input)
+//@     decreases len(input) - searchAt
+//@   loop 1:
+//@     invariant 0 <= startAt && startAt <= searchAt && searchAt <= i && i < len(input) && first == input[i] && -1 <= rangeindex && rangeindex < len(f.prefixesByFirst[first])
+//@     decreases len(f.prefixesByFirst[first]) - rangeindex
